@@ -16,11 +16,11 @@ def search(ctx):
 
 def run(ctx) -> int:
     proof = common.proof_stage(ctx.pid)
-    drv.d1(ctx, WHICH, 20000 if ctx.thorough else 1500, NT)
-    done = drv.d2_trees(ctx, WHICH, NT, 4000 if ctx.thorough else 120)
+    drv.d1(ctx, WHICH, 20000 if ctx.thorough else 5000, NT)
+    done = drv.d2_trees(ctx, WHICH, NT, 4000 if ctx.thorough else 300)
     if done:
         ctx.exhaustive.append("every verdict sequence of the removal strategies on the SMALL inputs")
-    drv.d2_random(ctx, WHICH, NT, 3000 if ctx.thorough else 350)
+    drv.d2_random(ctx, WHICH, NT, 3000 if ctx.thorough else 900)
     return common.decide(ctx, proof, RULE, search=search, assumptions=["SHA-512 is modelled as the identity (collision freedom)"])
 
 
